@@ -26,12 +26,21 @@ package gitlab
 //@   nopanic
 
 // The paging goroutines: an API error must not crash the importer (the response is nil on transport errors).
+// The paging goroutines of the per-issue listings: a failed request is turned into an error event on the stream
+// (so that the run reports it and the cursor stays), and the listing only stops after the page that the server
+// says is the last one.
 //@ func Notes$1
 //@ func LabelEvents$1
 //@ func StateEvents$1
 //@   props C16
 //@   nopanic
 //@   requires client != nil && issue != nil
+//@   check [failure-becomes-an-error-event] gitlab.eventListFailures > old(gitlab.eventListFailures) ==> sentcount(out) > 0 && typeof(sentat(out, sentcount(out) - 1)) == type[ErrorEvent]
+//@   check [stops-only-after-the-last-page] gitlab.eventListFailures == old(gitlab.eventListFailures) ==> resp != nil && resp.CurrentPage >= resp.TotalPages
+//@   loop 1
+//@     invariant gitlab.eventListFailures == old(gitlab.eventListFailures)
+//@   loop 2
+//@     invariant gitlab.eventListFailures == old(gitlab.eventListFailures)
 // The paging goroutine of Issues: a failed listing request ends the stream, and the failure is handed to the
 // importer on the error channel - an incomplete listing must not pass for a complete one (the bridge would
 // store the new cursor and the issues of the failed page would never be imported).
@@ -40,6 +49,9 @@ package gitlab
 //@   nopanic
 //@   requires client != nil && errs != out
 //@   ensures [listing-failure-is-reported] gitlab.issueListFailures > old(gitlab.issueListFailures) ==> sentcount(errs) == 1
+//@   check [stops-only-after-the-last-page] gitlab.issueListFailures == old(gitlab.issueListFailures) ==> resp != nil && resp.CurrentPage >= resp.TotalPages
+// an incremental run asks for the issues *updated* since the cursor (an old issue with a new comment must be seen)
+//@   assert at `client.Issues.ListProjectIssues(` [asks-for-updates-since-the-cursor] opts.UpdatedAfter != nil && *opts.UpdatedAfter == since && opts.CreatedAfter == nil
 //@   loop 1
 //@     invariant gitlab.issueListFailures == old(gitlab.issueListFailures) && sentcount(errs) == 0
 //@   loop 2
